@@ -3,6 +3,7 @@ package main
 import (
 	"fmt"
 	"go/token"
+	"go/types"
 
 	"golang.org/x/tools/go/ssa"
 )
@@ -17,7 +18,9 @@ func init() {
 				cfgs = []string{"linux", "linux-race", "darwin"}
 			}
 			for _, c := range cfgs {
-				r.use(c)
+				if r.useOpt(c) == nil {
+					continue
+				}
 				c06(r)
 			}
 		})
@@ -54,6 +57,10 @@ func c06(r *Run) {
 			r.ob("C06.R1:task-created-by:"+w.FnName(f), "the handler task closure is created only by onProcess (after its trylock)", f, ins, f == ro.onProcess, "created in "+w.FnName(f), false)
 		}
 	}
+
+	// the task handed to the runner is always run: every function the module installs as runner.RunTask runs (or spawns,
+	// or forwards) its task argument on every path - the starter holds the processing lock on the task's behalf
+	runnerRunsTask(r, "C06.R1")
 
 	// ---- R2 no stranded input: unlock -> re-read -> relock -> OnRequest ---------------------
 	unlocks := findIns(ro.task, func(i ssa.Instruction) bool {
@@ -391,4 +398,66 @@ func onReqSetAssume(v ssa.Value) (bool, bool) {
 		}
 	}
 	return false, false
+}
+
+// runnerRunsTask: every module function stored into runner.RunTask runs its func() argument on every path.
+func runnerRunsTask(r *Run, prefix string) {
+	w := r.W
+	if w.Runner == nil {
+		return
+	}
+	n := 0
+	for _, f := range w.Funcs {
+		forEachIns(f, func(i ssa.Instruction) {
+			st, ok := i.(*ssa.Store)
+			if !ok {
+				return
+			}
+			g, ok := st.Addr.(*ssa.Global)
+			if !ok || g.Name() != "RunTask" || g.Pkg != w.Runner {
+				return
+			}
+			n++
+			val := st.Val
+			if ct, ok := val.(*ssa.ChangeType); ok {
+				val = ct.X
+			}
+			target := makeClosureFn(val)
+			if target == nil || target.Blocks == nil || target.Pkg == nil || !isModulePkg(target.Pkg.Pkg) {
+				// an external pool function or a user-supplied runner (Configure/SetRunner): trusted by assumption
+				r.ob(prefix+":runner-installed:"+siteKey(w, i), "what is installed as runner.RunTask is a pool's CtxGo, a user-supplied runner, or a module function checked below", f, i, true, "external / user-supplied runner (assumed to run the task)", false)
+				return
+			}
+			// the func() parameter
+			var task *ssa.Parameter
+			for _, p := range target.Params {
+				if sig, ok := p.Type().Underlying().(*types.Signature); ok && sig.Params().Len() == 0 && sig.Results().Len() == 0 {
+					task = p
+				}
+			}
+			if task == nil {
+				r.ob(prefix+":runner-runs-task:"+w.FnName(target), "the installed runner takes the task", target, nil, false, "no func() parameter", true)
+				return
+			}
+			runs := func(x ssa.Instruction) bool {
+				cc := callCommon(x)
+				if cc == nil {
+					return false
+				}
+				if !cc.IsInvoke() && cc.StaticCallee() == nil && cc.Value == ssa.Value(task) {
+					return true // f() or go f()
+				}
+				for _, a := range cc.Args {
+					if a == ssa.Value(task) {
+						return true // forwarded to another runner
+					}
+				}
+				return false
+			}
+			r.mustPass(prefix+":runner-runs-task:"+w.FnName(target), "a runner installed by the module runs (or spawns, or forwards) the task on every path: a dropped task would leave the processing lock held for ever and the buffered input stranded", target, nil, []Start{Entry(target)}, runs, nil, nil, "f() / go f() / run(ctx, f) on every path")
+		})
+	}
+	if n == 0 {
+		r.ob(prefix+":runner-installed", "the module installs a task runner", nil, nil, false, "no store to runner.RunTask found", false)
+	}
 }
